@@ -22,6 +22,8 @@ class Val:
             return self.v
         if self.kind == "call":
             return "%s(%s)" % (self.v, ", ".join(map(repr, self.args)))
+        if self.kind in ("discr", "agg", "binop", "unop"):
+            return "%s:%s(%s)" % (self.kind, self.v, ", ".join(map(repr, self.args)))
         return "%s:%s" % (self.kind, self.v)
 
     def same(self, o):
@@ -41,7 +43,7 @@ PASS_THROUGH = (
 )
 
 
-def describe(body, op, depth=10):
+def describe(body, op, depth=30):
     """symbolic value of an operand, chasing single-def temporaries"""
     c = op_const(op)
     if c is not None:
@@ -70,7 +72,7 @@ def describe(body, op, depth=10):
     return describe_place(body, pl, depth)
 
 
-def describe_place(body, pl, depth=10):
+def describe_place(body, pl, depth=30):
     if pl is None:
         return Val("unknown", "?")
     if depth <= 0:
